@@ -1,6 +1,6 @@
 /-
-Helper lemmas for C14 (STUN codec): CRC table = bitwise CRC, HMAC forms, QDataStream reads of what encode wrote,
-one lemma per attribute ("the decode loop, standing in front of what encode wrote for X, consumes it and sets X"),
+Helper lemmas for C14 (STUN codec): CRC table = bitwise CRC, HMAC forms, QDataStream reads of what encodeRaw wrote,
+one lemma per attribute ("the decode loop, standing in front of what encodeRaw wrote for X, consumes it and sets X"),
 and the invariants of the decode loop (stream = rest of the packet; MESSAGE-INTEGRITY / FINGERPRINT were verified).
 -/
 import Qx.Model.C14Stun
@@ -152,7 +152,7 @@ theorem hmacCode_eq_rfc_20 (H : Bytes → Bytes) (hH : ∀ x, (H x).length = 20)
     hmacCode H 64 k t = hmacRfc H 64 k t :=
   hmacCode_eq_rfc H 64 k t (fun x => by rw [hH x]; decide)
 
-/-! ## QDataStream reads of what encode wrote -/
+/-! ## QDataStream reads of what encodeRaw wrote -/
 
 theorem u8n (n : Nat) : (UInt8.ofNat n).toNat = n % 256 := by simp [UInt8.toNat_ofNat']
 
@@ -604,8 +604,8 @@ theorem steps_xorRelayed (x : Msg) (a : Addr) (hwf : a.WF) (hx : x.xorRelayed = 
 /-- the message object after the header has been read -/
 def afterHeader (m : Msg) : Msg := { Msg.fresh with type := m.type, cookie := m.cookie, id := m.id }
 
-/-- the whole attribute section written by `encode` is consumed by the loop and rebuilds `view m` -/
-theorem steps_body (m : Msg) (h : WFMsg m) : StepsTo (body m) (afterHeader m) (view m) := by
+/-- the whole attribute section written by `encodeRaw` is consumed by the loop and rebuilds `view m` -/
+theorem steps_body (m : Msg) (h : WFFields m) : StepsTo (body m) (afterHeader m) (view m) := by
   have s := steps_mapped (afterHeader m) m.mapped h.mapped (by rfl)
   have s := s.append (steps_changeRequest _ m.changeRequest h.changeRequest (by rfl))
   have s := s.append (steps_source _ m.source h.source (by rfl))
@@ -724,11 +724,11 @@ theorem loop_fp (H : Bytes → Bytes) (buf key : Bytes) (len done v : Nat) (rest
     and_false, if_false]
 
 
-/-- the MESSAGE-INTEGRITY attribute `encode` appends under key `k` -/
+/-- the MESSAGE-INTEGRITY attribute `encodeRaw` appends under key `k` -/
 def miAttr (H : Bytes → Bytes) (m : Msg) (k : Bytes) : Bytes :=
   putU16 Stun.messageIntegrity ++ (putU16 20 ++ hmacCode H 64 k (framed m ((body m).length + 24)))
 
-/-- the FINGERPRINT attribute `encode` appends to `pre` -/
+/-- the FINGERPRINT attribute `encodeRaw` appends to `pre` -/
 def fpAttr (pre : Bytes) : Bytes := putU16 Stun.fingerprint ++ (putU16 4 ++ putU32 (fingerprintOf pre))
 
 theorem hmacCode_len (H : Bytes → Bytes) (hH : ∀ x, (H x).length = 20) (B : Nat) (k t : Bytes) :
@@ -740,31 +740,31 @@ theorem miAttr_len (H : Bytes → Bytes) (hH : ∀ x, (H x).length = 20) (m : Ms
 
 theorem fpAttr_len (pre : Bytes) : (fpAttr pre).length = 8 := by simp [fpAttr, putU16_len, putU32_len]
 
-/-- the four shapes of `encode`'s output -/
+/-- the four shapes of `encodeRaw`'s output -/
 theorem encode_nokey_nofp (H : Bytes → Bytes) (m : Msg) (hid : m.id.length = 12) :
-    encode H m [] false = framed m (body m).length := by
-  simp [encode, withFP, withMI, plain_eq m hid]
+    encodeRaw H m [] false = framed m (body m).length := by
+  simp [encodeRaw, withFP, withMI, plain_eq m hid]
 
 theorem encode_nokey_fp (H : Bytes → Bytes) (m : Msg) (hid : m.id.length = 12) :
-    encode H m [] true = framed m ((body m).length + 8) ++ fpAttr (framed m ((body m).length + 8)) := by
+    encodeRaw H m [] true = framed m ((body m).length + 8) ++ fpAttr (framed m ((body m).length + 8)) := by
   have e := setLen_framed m (body m).length ((body m).length + 8) []
   simp only [List.append_nil] at e
-  simp [encode, withFP, withMI, plain_eq m hid, fpInput, framed_len m _ hid, Stun.headerSize, Stun.fpAdjust, e, fpAttr]
+  simp [encodeRaw, withFP, withMI, plain_eq m hid, fpInput, framed_len m _ hid, Stun.headerSize, Stun.fpAdjust, e, fpAttr]
 
 theorem encode_key_nofp (H : Bytes → Bytes) (hH : ∀ x, (H x).length = 20) (m : Msg) (k : Bytes) (hk : k ≠ [])
     (hid : m.id.length = 12) :
-    encode H m k false = framed m ((body m).length + 24) ++ miAttr H m k := by
+    encodeRaw H m k false = framed m ((body m).length + 24) ++ miAttr H m k := by
   have e := setLen_framed m (body m).length ((body m).length + 24) []
   simp only [List.append_nil] at e
-  simp [encode, withFP, withMI, hk, plain_eq m hid, miInput, framed_len m _ hid, Stun.headerSize, Stun.miAdjust, e, miAttr,
+  simp [encodeRaw, withFP, withMI, hk, plain_eq m hid, miInput, framed_len m _ hid, Stun.headerSize, Stun.miAdjust, e, miAttr,
     hmacCode_len H hH]
 
 theorem encode_key_fp (H : Bytes → Bytes) (hH : ∀ x, (H x).length = 20) (m : Msg) (k : Bytes) (hk : k ≠ [])
     (hid : m.id.length = 12) :
-    encode H m k true = (framed m ((body m).length + 32) ++ miAttr H m k) ++
+    encodeRaw H m k true = (framed m ((body m).length + 32) ++ miAttr H m k) ++
       fpAttr (framed m ((body m).length + 32) ++ miAttr H m k) := by
   have e1 := encode_key_nofp H hH m k hk hid
-  unfold encode at e1 ⊢
+  unfold encodeRaw at e1 ⊢
   simp only [withFP, Bool.false_eq_true, if_false] at e1
   have e := setLen_framed m ((body m).length + 24) ((body m).length + 32) (miAttr H m k)
   have hl : (framed m ((body m).length + 24) ++ miAttr H m k).length - Stun.headerSize + Stun.fpAdjust = (body m).length + 32 := by
@@ -775,17 +775,18 @@ theorem encode_key_fp (H : Bytes → Bytes) (hH : ∀ x, (H x).length = 20) (m :
 theorem take_all_append (a b : Bytes) (n : Nat) (h : n = a.length) : (a ++ b).take n = a := by
   subst h; simp
 
-/-- decode ∘ encode with the verification trace -/
-theorem decodeX_encode (H : Bytes → Bytes) (hH : ∀ x, (H x).length = 20) (m : Msg) (h : WFMsg m) (k : Bytes) (fp : Bool) :
-    decodeX H (encode H m k fp) k =
+/-- decode ∘ encodeRaw with the verification trace -/
+theorem decodeX_encode_fields (H : Bytes → Bytes) (hH : ∀ x, (H x).length = 20) (m : Msg) (h : WFFields m) (k : Bytes)
+    (fp : Bool) (hfit : (body m).length + (if k = [] then 0 else 24) + (if fp then 8 else 0) < 65536) :
+    decodeX H (encodeRaw H m k fp) k =
       some ⟨view m, if k = [] then none else some (body m).length,
         if fp then some ((body m).length + (if k = [] then 0 else 24)) else none⟩ := by
-  have hsz := h.size
   have hid := h.id
   by_cases hk : k = []
   · subst hk
     cases fp with
     | false =>
+      simp at hfit
       rw [encode_nokey_nofp H m hid]
       have e := decodeX_framed H m (body m).length [] [] h.type h.cookie hid (by omega) (by simp)
       simp only [List.append_nil] at e
@@ -795,6 +796,7 @@ theorem decodeX_encode (H : Bytes → Bytes) (hH : ∀ x, (H x).length = 20) (m 
       rw [s, loop_done _ _ _ _ _ _ _ _ (by omega)]
       simp
     | true =>
+      simp at hfit
       rw [encode_nokey_fp H m hid]
       generalize hb : framed m ((body m).length + 8) ++ fpAttr (framed m ((body m).length + 8)) = buf
       have e := decodeX_framed H m ((body m).length + 8) (fpAttr (framed m ((body m).length + 8))) [] h.type h.cookie hid
@@ -817,6 +819,7 @@ theorem decodeX_encode (H : Bytes → Bytes) (hH : ∀ x, (H x).length = 20) (m 
       simp
   · cases fp with
     | false =>
+      simp [hk] at hfit
       rw [encode_key_nofp H hH m k hk hid]
       generalize hb : framed m ((body m).length + 24) ++ miAttr H m k = buf
       have e := decodeX_framed H m ((body m).length + 24) (miAttr H m k) k h.type h.cookie hid
@@ -838,6 +841,7 @@ theorem decodeX_encode (H : Bytes → Bytes) (hH : ∀ x, (H x).length = 20) (m 
       rw [l, loop_done _ _ _ _ _ _ _ _ (by omega)]
       simp [hk]
     | true =>
+      simp [hk] at hfit
       rw [encode_key_fp H hH m k hk hid]
       generalize hb : (framed m ((body m).length + 32) ++ miAttr H m k) ++
         fpAttr (framed m ((body m).length + 32) ++ miAttr H m k) = buf
@@ -1039,6 +1043,13 @@ theorem stepFP_not_next (buf : Bytes) (done aLen : Nat) (s : Bytes) (m : Msg) (s
   · simp
   · split <;> simp
 
+/-- decode ∘ encode with the verification trace, for messages inside `WFMsg` -/
+theorem decodeX_encode (H : Bytes → Bytes) (hH : ∀ x, (H x).length = 20) (m : Msg) (h : WFMsg m) (k : Bytes) (fp : Bool) :
+    decodeX H (encodeRaw H m k fp) k =
+      some ⟨view m, if k = [] then none else some (body m).length,
+        if fp then some ((body m).length + (if k = [] then 0 else 24)) else none⟩ :=
+  decodeX_encode_fields H hH m h.toWFFields k fp (by have := h.size; split <;> split <;> omega)
+
 /-- what the loop guarantees about the trace it returns, given that the stream is the rest of the packet -/
 theorem loop_verified (H : Bytes → Bytes) (buf key : Bytes) (len : Nat) :
     ∀ (n done : Nat) (s : Bytes) (m : Msg) (mi : Option Nat) (d : Decoded),
@@ -1148,7 +1159,9 @@ theorem decodeX_verified (H : Bytes → Bytes) (buf key : Bytes) (d : Decoded) (
 
 /-! ## sample message, HMAC characterisation, defect witnesses -/
 
-theorem wf_example : WFMsg exampleMsg := by constructor <;> decide +kernel
+theorem wf_example : WFMsg exampleMsg := by
+  refine { toWFFields := ?_, size := by decide +kernel }
+  constructor <;> decide +kernel
 theorem strs_example : StrsOK exampleMsg := by decide
 
 theorem sha1_length (x : Bytes) : (sha1 x).length = 20 := by
@@ -1167,8 +1180,8 @@ theorem view_eq_self (m : Msg) (h : StrsOK m) : view m = m := by
   rw [this]
 
 theorem encode_congr_key (H : Bytes → Bytes) (m : Msg) (k k' : Bytes) (fp : Bool) (hk : k ≠ []) (hk' : k' ≠ [])
-    (h : ∀ t, hmacCode H 64 k t = hmacCode H 64 k' t) : encode H m k fp = encode H m k' fp := by
-  simp only [encode, withMI, hk, hk', if_false, h]
+    (h : ∀ t, hmacCode H 64 k t = hmacCode H 64 k' t) : encodeRaw H m k fp = encodeRaw H m k' fp := by
+  simp only [encodeRaw, withMI, hk, hk', if_false, h]
 
 /-- the last turn of the loop: an attribute that `attrStep` lets pass and whose value ends where the body ends (up to
 padding) ends the parse successfully — whatever it swallowed -/
@@ -1201,7 +1214,7 @@ key `[1]` with fingerprint gives a packet that decodes successfully under the sa
 exactly MESSAGE-INTEGRITY (24 bytes) and FINGERPRINT (8 bytes), the value still ends inside the body, and nothing
 requires MESSAGE-INTEGRITY to be present. -/
 theorem bitflip_accepted (H : Bytes → Bytes) (hH : ∀ x, (H x).length = 20) :
-    (decode H (flipBit (encode H bitflipMsg [1] true) 189) [1]).isSome = true := by
+    (decode H (flipBit (encodeRaw H bitflipMsg [1] true) 189) [1]).isSome = true := by
   have hid : bitflipMsg.id.length = 12 := by decide
   rw [encode_key_fp H hH bitflipMsg [1] (by decide) hid, List.append_assoc]
   have hlenR : (miAttr H bitflipMsg [1] ++ fpAttr (framed bitflipMsg ((body bitflipMsg).length + 32) ++ miAttr H bitflipMsg [1])).length = 32 := by
@@ -1234,7 +1247,7 @@ theorem drop_framed (m : Msg) (L : Nat) (r : Bytes) (hid : m.id.length = 12) :
 /-- with a key, the four bytes at body offset `|body m|` are the MESSAGE-INTEGRITY header `00 08 00 14` -/
 theorem encode_mi_header (H : Bytes → Bytes) (hH : ∀ x, (H x).length = 20) (m : Msg) (hid : m.id.length = 12)
     (k : Bytes) (hk : k ≠ []) (fp : Bool) :
-    ((encode H m k fp).drop (Stun.headerSize + (body m).length)).take 4 =
+    ((encodeRaw H m k fp).drop (Stun.headerSize + (body m).length)).take 4 =
       putU16 Stun.messageIntegrity ++ putU16 20 := by
   cases fp with
   | false => rw [encode_key_nofp H hH m k hk hid, drop_framed m _ _ hid]; rfl
@@ -1243,7 +1256,7 @@ theorem encode_mi_header (H : Bytes → Bytes) (hH : ∀ x, (H x).length = 20) (
 /-- total length of an encoded packet -/
 theorem encode_length (H : Bytes → Bytes) (hH : ∀ x, (H x).length = 20) (m : Msg) (hid : m.id.length = 12)
     (k : Bytes) (fp : Bool) :
-    (encode H m k fp).length =
+    (encodeRaw H m k fp).length =
       Stun.headerSize + (body m).length + (if k = [] then 0 else 24) + (if fp then 8 else 0) := by
   by_cases hk : k = []
   · subst hk
@@ -1262,7 +1275,7 @@ theorem encode_length (H : Bytes → Bytes) (hH : ∀ x, (H x).length = 20) (m :
 /-- the eight bytes of the FINGERPRINT attribute start with `80 28 00 04` -/
 theorem encode_fp_header (H : Bytes → Bytes) (hH : ∀ x, (H x).length = 20) (m : Msg) (hid : m.id.length = 12)
     (k : Bytes) :
-    ((encode H m k true).drop (Stun.headerSize + (body m).length + (if k = [] then 0 else 24))).take 4 =
+    ((encodeRaw H m k true).drop (Stun.headerSize + (body m).length + (if k = [] then 0 else 24))).take 4 =
       putU16 Stun.fingerprint ++ putU16 4 := by
   by_cases hk : k = []
   · subst hk
@@ -1487,24 +1500,24 @@ bytes the sender authenticated, and yet the packet contains their valid MAC.  No
 theorem tamper_verified_is_forgery_aux (H : Bytes → Bytes) (hH : ∀ x, (H x).length = 20) (m : Msg) (h : WFMsg m)
     (k : Bytes) (hk : k ≠ []) (fp : Bool) (i : Nat)
     (hi : i / 8 < Stun.headerSize + (body m).length + 24) (d : Decoded) (off : Nat)
-    (hdec : decodeX H (flipBit (encode H m k fp) i) k = some d) (hmi : d.miAt = some off) :
-    miInputAt (flipBit (encode H m k fp) i) off ≠ miInputAt (encode H m k fp) (body m).length ∧
-    hmacCode H 64 k (miInputAt (flipBit (encode H m k fp) i) off) = miValueAt (flipBit (encode H m k fp) i) off := by
+    (hdec : decodeX H (flipBit (encodeRaw H m k fp) i) k = some d) (hmi : d.miAt = some off) :
+    miInputAt (flipBit (encodeRaw H m k fp) i) off ≠ miInputAt (encodeRaw H m k fp) (body m).length ∧
+    hmacCode H 64 k (miInputAt (flipBit (encodeRaw H m k fp) i) off) = miValueAt (flipBit (encodeRaw H m k fp) i) off := by
   have hv' := decodeX_verified_at H _ k d off hdec hmi
   refine ⟨?_, (hv'.2.2 hk).symm⟩
   intro heq
   -- the untouched packet
-  have hL : (encode H m k fp).length = Stun.headerSize + (body m).length + 24 + (if fp then 8 else 0) := by
+  have hL : (encodeRaw H m k fp).length = Stun.headerSize + (body m).length + 24 + (if fp then 8 else 0) := by
     rw [encode_length H hH m h.id k fp]; simp [hk]
   have hd0 := decodeX_encode H hH m h k fp
   have hv := decodeX_verified_at H _ k _ (body m).length hd0 (by simp [hk])
   have hh := decodeX_header H _ k _ hd0
   have hh' := decodeX_header H _ k _ hdec
   have e20 : Stun.headerSize = 20 := rfl
-  have hlen' := flipBit_length (encode H m k fp) i
-  have hsame := flipBit_same (encode H m k fp) i (by omega)
+  have hlen' := flipBit_length (encodeRaw H m k fp) i
+  have hsame := flipBit_same (encodeRaw H m k fp) i (by omega)
   clear hd0 hdec
-  generalize encode H m k fp = b at *
+  generalize encodeRaw H m k fp = b at *
   generalize flipBit b i = b' at *
   -- the two authenticated prefixes have the same length, so the decoder verified at the original offset
   have hoff : off = (body m).length := by
@@ -1562,7 +1575,7 @@ theorem tamper_verified_is_forgery_aux (H : Bytes → Bytes) (hH : ∀ x, (H x).
 /-! ## authenticated decode -/
 
 theorem decodeAuth_encode (H : Bytes → Bytes) (hH : ∀ x, (H x).length = 20) (m : Msg) (h : WFMsg m) (k : Bytes)
-    (hk : k ≠ []) (fp : Bool) : decodeAuth H (encode H m k fp) k = some (view m) := by
+    (hk : k ≠ []) (fp : Bool) : decodeAuth H (encodeRaw H m k fp) k = some (view m) := by
   unfold decodeAuth
   rw [decodeX_encode H hH m h k fp]
   simp [hk]
@@ -1570,10 +1583,10 @@ theorem decodeAuth_encode (H : Bytes → Bytes) (hH : ∀ x, (H x).length = 20) 
 theorem tamper_rejected_aux (H : Bytes → Bytes) (hH : ∀ x, (H x).length = 20) (m : Msg) (h : WFMsg m)
     (k : Bytes) (hk : k ≠ []) (fp : Bool) (i : Nat)
     (hi : i / 8 < Stun.headerSize + (body m).length + 24)
-    (hNF : NotAForgery H k (miInputAt (encode H m k fp) (body m).length) (flipBit (encode H m k fp) i)) :
-    decodeAuth H (flipBit (encode H m k fp) i) k = none := by
+    (hNF : NotAForgery H k (miInputAt (encodeRaw H m k fp) (body m).length) (flipBit (encodeRaw H m k fp) i)) :
+    decodeAuth H (flipBit (encodeRaw H m k fp) i) k = none := by
   unfold decodeAuth
-  cases hd : decodeX H (flipBit (encode H m k fp) i) k with
+  cases hd : decodeX H (flipBit (encodeRaw H m k fp) i) k with
   | none => rfl
   | some d =>
     cases hmi : d.miAt with
@@ -1630,8 +1643,8 @@ theorem flipBit_append_right (a r : Bytes) (i : Nat) (h : a.length ≤ i / 8) :
 result is a rejection or the original message; no hypothesis about the hash. -/
 theorem tamper_after_mi_aux (H : Bytes → Bytes) (hH : ∀ x, (H x).length = 20) (m : Msg) (h : WFMsg m)
     (k : Bytes) (hk : k ≠ []) (i : Nat) (hi : Stun.headerSize + (body m).length + 24 ≤ i / 8) :
-    decodeAuth H (flipBit (encode H m k true) i) k = none ∨
-    decodeAuth H (flipBit (encode H m k true) i) k = some (view m) := by
+    decodeAuth H (flipBit (encodeRaw H m k true) i) k = none ∨
+    decodeAuth H (flipBit (encodeRaw H m k true) i) k = some (view m) := by
   have hid := h.id
   have hsz := h.size
   rw [encode_key_fp H hH m k hk hid]
@@ -1644,7 +1657,7 @@ theorem tamper_after_mi_aux (H : Bytes → Bytes) (hH : ∀ x, (H x).length = 20
   have e := decodeX_framed H m ((body m).length + 32) (miAttr H m k ++ r') k h.type h.cookie hid
     (by omega) (by simp [miAttr_len H hH, hlr])
   rw [hb] at e
-  have s := steps_body m h H buf k ((body m).length + 32) 0 (miAttr H m k ++ r') (by omega)
+  have s := steps_body m h.toWFFields H buf k ((body m).length + 32) 0 (miAttr H m k ++ r') (by omega)
     (by simp [miAttr_len H hH, hlr])
   have hm : hmacCode H 64 k (framed m ((body m).length + 24)) =
       hmacCode H 64 k (setLen (buf.take (Stun.headerSize + (0 + (body m).length))) (0 + (body m).length + Stun.miAdjust)) := by
@@ -1672,19 +1685,6 @@ theorem rdU16_put_mod (x : Nat) (r : Bytes) : rdU16 (putU16 x ++ r) = (x % 65536
   simp only [putU16, rdU16, List.cons_append, List.nil_append, u8n]
   congr 1; omega
 
-/-- a message whose attribute section does not fit the 16-bit length field is encoded with a wrapped length and is
-rejected by `decode` (header length ≠ packet length) -/
-theorem decode_none_of_oversized (H : Bytes → Bytes) (m : Msg) (hid : m.id.length = 12) (ht : m.type < 65536)
-    (hbig : 65536 ≤ (body m).length) : decode H (encode H m [] false) [] = none := by
-  rw [encode_nokey_nofp H m hid]
-  have hlen : (framed m (body m).length).length = 20 + (body m).length := framed_len m _ hid
-  have hne : ¬ ((body m).length % 65536 = 20 + (body m).length - Stun.headerSize) := by
-    have := Nat.mod_lt (body m).length (show 65536 > 0 by decide)
-    simp only [Stun.headerSize]; omega
-  unfold decode decodeX decodeFrom
-  rw [hlen]
-  simp only [framed, rdU16_put _ _ ht, rdU16_put_mod, ne_eq, hne, not_false_eq_true, if_true, if_neg (show ¬ (20 + (body m).length < Stun.headerSize) by simp only [Stun.headerSize]; omega), Option.map_none]
-
 theorem dataOnly_body_eq (d : Bytes) : body (dataOnlyMsg d) = encBlob Stun.dataAttr d := by
   have e1 : ∀ ty x, encAddr ty ({} : Addr) x = [] := fun _ _ => rfl
   have e2 : encError (dataOnlyMsg d) = [] := rfl
@@ -1697,11 +1697,56 @@ theorem dataOnly_body_eq (d : Bytes) : body (dataOnlyMsg d) = encBlob Stun.dataA
     encOpt none _ ++ encOpt none _ ++ encOpt none _ ++ [] = _
   simp only [e1, encOpt, List.append_nil, List.nil_append, Bool.false_eq_true, if_false]
 
-theorem oversized_data_rejected (H : Bytes → Bytes) (d : Bytes) (hd : 65532 ≤ d.length) :
-    decode H (encode H (dataOnlyMsg d) [] false) [] = none := by
-  refine decode_none_of_oversized H (dataOnlyMsg d) rfl (by show 0 < 65536; decide) ?_
+/-! ## `encode` = the assembled bytes unless they do not fit (then it refuses) -/
+
+theorem encode_eq_raw (H : Bytes → Bytes) (hH : ∀ x, (H x).length = 20) (m : Msg) (hid : m.id.length = 12) (k : Bytes)
+    (fp : Bool) (hfit : (body m).length + (if k = [] then 0 else 24) + (if fp then 8 else 0) < 65536) :
+    encode H m k fp = encodeRaw H m k fp := by
+  unfold encode
+  have hl := encode_length H hH m hid k fp
+  have : ¬ ((encodeRaw H m k fp).length - Stun.headerSize > 0xffff) := by
+    rw [hl]; simp only [Stun.headerSize]; omega
+  simp only [this, if_false]
+
+theorem encode_eq_raw_wf (H : Bytes → Bytes) (hH : ∀ x, (H x).length = 20) (m : Msg) (h : WFMsg m) (k : Bytes)
+    (fp : Bool) : encode H m k fp = encodeRaw H m k fp :=
+  encode_eq_raw H hH m h.id k fp (by have := h.size; split <;> split <;> omega)
+
+theorem encode_eq_nil (H : Bytes → Bytes) (hH : ∀ x, (H x).length = 20) (m : Msg) (hid : m.id.length = 12) (k : Bytes)
+    (fp : Bool) (hbig : 65536 ≤ (body m).length + (if k = [] then 0 else 24) + (if fp then 8 else 0)) :
+    encode H m k fp = [] := by
+  unfold encode
+  have hl := encode_length H hH m hid k fp
+  have : (encodeRaw H m k fp).length - Stun.headerSize > 0xffff := by
+    rw [hl]; simp only [Stun.headerSize]; omega
+  simp only [this, if_true]
+
+/-- a message `encode` did not refuse fits the 16-bit length field -/
+theorem fits_of_encode_ne_nil (H : Bytes → Bytes) (hH : ∀ x, (H x).length = 20) (m : Msg) (hid : m.id.length = 12)
+    (k : Bytes) (fp : Bool) (hacc : encode H m k fp ≠ []) :
+    (body m).length + (if k = [] then 0 else 24) + (if fp then 8 else 0) < 65536 := by
+  apply Classical.byContradiction
+  intro hn
+  exact hacc (encode_eq_nil H hH m hid k fp (by omega))
+
+theorem setReservationToken_len (tok : Bytes) : (setReservationToken tok).length = 8 := by
+  simp only [setReservationToken, List.length_take, List.length_append, zeros_len]; omega
+
+theorem dataOnly_body_len (d : Bytes) : (body (dataOnlyMsg d)).length = 4 + d.length + pad4 d.length := by
   rw [dataOnly_body_eq]
   simp only [encBlob, List.length_append, putU16_len, padded_len]
   omega
+
+/-- the table-driven CRC over the extracted table is the bitwise CRC-32 -/
+theorem crcTable_spec (bs : Bytes) : crc32TableList crcTable bs = crc32Bitwise bs := by
+  unfold crc32TableList crc32Table crc32Bitwise
+  congr 1
+  generalize (0xFFFFFFFF : UInt32) = c
+  induction bs generalizing c with
+  | nil => rfl
+  | cons b bs ih => simp only [List.foldl_cons, crcByte_eq, ih]
+
+theorem fingerprintOf_spec (bs : Bytes) : fingerprintOf bs = (crc32Bitwise bs).toNat ^^^ 0x5354554e := by
+  simp only [fingerprintOf, crcCode, crcTable_spec, Stun.fingerprintXor]
 
 end Qx.C14
